@@ -141,6 +141,29 @@ def run(prog, run):
     r4(prog, run)
     r5(prog, run)
     r6(prog, run)
+    r7(prog, run)
+    r8(prog, run)
+    r9(prog, run)
+
+
+def r7(prog, run):
+    """the receive state of the socket (text buffer, cached stream header, bytes of an unfinished character / a stateful decoder) belongs to one connection.
+    The clause is C03.R2's; it is shared, not copied."""
+    from . import C03
+    rid = run.rule('C10.R7', 'nothing received on an earlier connection is left in the socket\'s receive state when a new one starts: both restart slots (connected / encrypted) '
+                             'clear every receive-state member before started() is emitted (= C03.R2); leftover bytes of a cut connection would be prepended to the next stream, '
+                             'whose header then never parses', floor=1)
+    sub = type(run)(run.prop, run.tier, run.seed)
+    C03.run(prog, sub, only_restart_rules=True)
+    run.instance(rid)
+    hits = [v for v in sub.violations if '#keeps:' in v['key']]
+    if hits:
+        run.violation(rid, 'restart#' + hits[0]['key'].split('#')[-1], hits[0]['site'],
+                      'receive state survives into the next connection: ' + hits[0]['what'] + ' - after a connection that was cut inside a multi-byte character or an element, the '
+                      'following attempt cannot get past the stream header')
+    else:
+        n = sum(r['discharged'] for k, r in sub.rules.items() if k.endswith('R2'))
+        run.ok(rid, 'src/base/Stream.cpp', 'every receive-state member is cleared in both restart slots (%d obligations of C03.R2)' % n)
 
 
 def r1(prog, run, fns, byid):
@@ -465,3 +488,99 @@ def r6(prog, run):
             run.violation(rid, 'timer#%s#survives-connection-loss' % fld.split('::')[-1], f0.loc(i0),
                           '%s is started here but no stop() of it runs when the socket reports the disconnect: it fires later into a disconnected client (spurious error, '
                           'state reset behind the back of a pending resumption)' % fld)
+
+
+# --------------------------------------------------------------------------- R8: what the disconnect handler decides on is in place before the socket is closed
+def r8(prog, run):
+    from ..effects import classify_use
+    rid = run.rule('C10.R8', 'closing the socket runs the socket-disconnected handler synchronously; the members that handler branches on (try the next address, follow a redirect, '
+                             'close the session) are therefore written before the socket is closed, never after it: a value stored afterwards is missed by this disconnect and '
+                             'misdirects the next one', floor=1)
+    h = prog.fn(OC + '::_q_socketDisconnected')
+    inputs = set()
+    for b in h.blocks.values():
+        t = b.get('term')
+        if t and 'cond' in t:
+            for j in h.walk(t['cond']):
+                m = h.nodes[j]
+                if m['k'] == 'mem' and (m.get('f') or '').startswith(OCP + '::'):
+                    inputs.add(m['f'])
+    inputs -= {OCP + '::q'}
+    if not inputs:
+        raise AnalysisBroken('C10.R8: the socket-disconnected handler no longer branches on members of the private')
+    run.extra['disconnect_decision_inputs'] = sorted(inputs)
+
+    def event_of(g, nid):
+        n = g.nodes[nid]
+        if n['k'] == 'call' and (g.cname(n) or '').endswith('XmppSocket::disconnectFromHost'):
+            return 'sock'
+        if n['k'] == 'mem' and n.get('f') in inputs and classify_use(g, nid)[0] == 'write':
+            return 'w:' + n['f'].split('::')[-1]
+        return None
+    nfn = 0
+    for f in prog.fns.values():
+        if f.entry is None or not f.file.endswith('QXmppOutgoingClient.cpp') or f.id == h.id:
+            continue
+        if not any((f.cname(n) or '').endswith('XmppSocket::disconnectFromHost') or (f.cname(n) or '') == OC + '::disconnectFromHost' for _, n in f.calls()):
+            continue
+        if not any(n['k'] == 'mem' and n.get('f') in inputs and classify_use(f, i)[0] == 'write' for i, n in enumerate(f.nodes)):
+            continue
+        nfn += 1
+        run.instance(rid)
+        seqs = cfgx.effect_sequences(prog, f, event_of)
+        bad = [q for q in seqs if 'sock' in q and any(e.startswith('w:') for e in q[q.index('sock') + 1:])]
+        if bad:
+            late = [e for e in bad[0][bad[0].index('sock') + 1:] if e.startswith('w:')][0]
+            run.violation(rid, '%s#written-after-close:%s' % (f.outer_name(), late[2:]), f.loc(),
+                          '%s closes the socket and stores %s afterwards (effect order %s): the socket-disconnected handler has already run inside the close without it, and the '
+                          'stale value decides what happens at the next disconnect' % (f.display()[:50], late[2:], list(bad[0])))
+        else:
+            run.ok(rid, f.loc(), 'decision inputs are written before the socket is closed (%s)' % sorted(seqs)[:3])
+    if not nfn:
+        raise AnalysisBroken('C10.R8: no function both stores a decision input of the disconnect handler and closes the socket (handleStreamError expected)')
+
+
+# --------------------------------------------------------------------------- R9: resumable only when the server said so
+def r9(prog, run):
+    rid = run.rule('C10.R9', 'the stream counts as resumable only when the server granted resumption: every value stored in the member canResume() reports is false whenever the '
+                             'resume flag of the received <enabled/> is false (evaluated with that flag bound to false), so a cut connection is not kept "resumable" - with its '
+                             'outstanding requests retained and a <resume/> sent on the next attempt - for a session the server never agreed to resume', floor=2)
+    getter = prog.fn(NS + 'C2sStreamManager::canResume')
+    fld = None
+    for _, r in getter.returns():
+        if 'e' in r:
+            m = getter.nodes[getter.skip(r['e'])]
+            if m['k'] == 'mem':
+                fld = m['f']
+    if fld is None:
+        raise AnalysisBroken('C10.R9: C2sStreamManager::canResume() no longer returns a member')
+    rec = prog.record(NS + 'SmEnabled')
+    flag = [fl for fl in rec['fields'] if fl.get('t') == 'bool']
+    if len(flag) != 1:
+        raise AnalysisBroken('C10.R9: the resume flag of SmEnabled was not identified')
+    flagq = flag[0].get('qname') or NS + 'SmEnabled::' + flag[0]['name']
+    nw = 0
+    for f in prog.fns.values():
+        if f.entry is None or not f.file.endswith(('QXmppOutgoingClient.cpp', 'QXmppOutgoingClient_p.h')):
+            continue
+
+        def custom(g, nid, st):
+            n = g.nodes[nid]
+            if n['k'] == 'mem' and n.get('f') == flagq:
+                return (False,)
+            return None
+        ev = cfgx.Evaluator(f, {}, custom=custom, prog=prog)
+        for i, n in f.all_nodes('assign'):
+            if f.nodes[f.skip(n['l'])].get('f') != fld:
+                continue
+            nw += 1
+            run.instance(rid)
+            v = ev.ev(n['r']) if n.get('op') == '=' else None
+            if v is False:
+                run.ok(rid, f.loc(i), '%s = %s is false without the server\'s resume flag' % (fld.split('::')[-1], f.fmt(n['r'])[:50]), nontrivial=f.const_value(n['r']) is None)
+            else:
+                run.violation(rid, '%s#resumable-without-grant' % f.outer_name(), f.loc(i),
+                              '%s stores %s in %s: with resume absent / false in the server\'s <enabled/> this is %s, so the session is treated as resumable although the server '
+                              'did not grant resumption' % (f.display()[:50], f.fmt(n['r'], inline=False)[:60], fld.split('::')[-1], 'not false' if v is None else v))
+    if nw < 2:
+        raise AnalysisBroken('C10.R9: writes of %s not found' % fld)
